@@ -3557,6 +3557,21 @@ func (vm *Thread) opCheckAbort() value.Value {
 	return value.Undefined
 }
 
+// reflect.Select panics ("send on closed channel") when the case it chooses sends on a closed channel.
+func selectRecoveringClosedSend(cases []reflect.SelectCase) (chosen int, recv reflect.Value, recvOK bool, sendOnClosed bool) {
+	defer func() {
+		if r := recover(); r != nil {
+			if err, ok := r.(error); ok && err.Error() == "send on closed channel" {
+				sendOnClosed = true
+				return
+			}
+			panic(r)
+		}
+	}()
+	chosen, recv, recvOK = reflect.Select(cases)
+	return
+}
+
 func (vm *Thread) opSelect() value.Value {
 	selectData := (*Select)(vm.popGet().Pointer())
 	channels := make([]value.AnyChannel, len(selectData.Cases))
@@ -3596,8 +3611,12 @@ func (vm *Thread) opSelect() value.Value {
 	}
 
 	vhook("select.try", selectData, channels)
-	chosenCaseIndex, val, channelOpen := reflect.Select(reflectSelectCases)
+	chosenCaseIndex, val, channelOpen, sendOnClosed := selectRecoveringClosedSend(reflectSelectCases)
 	vhook("select.ok", selectData, channels, chosenCaseIndex-1, channelOpen)
+	if sendOnClosed {
+		// a send case on a closed channel is rejected like `ch << v`: with an error, not a Go panic
+		return value.ChannelClosedPushError.ToValue()
+	}
 	if chosenCaseIndex == 0 {
 		return value.ExecutionAbortedError.ToValue()
 	}
@@ -3606,13 +3625,9 @@ func (vm *Thread) opSelect() value.Value {
 	chosenCase := selectData.Cases[chosenCaseIndex]
 	chosenChannel := channels[chosenCaseIndex]
 
-	if !channelOpen {
-		var result value.Result
-		if chosenCase.Direction == reflect.SelectSend {
-			result = value.MakeErrResult(value.ChannelClosedPopError.ToValue())
-		} else {
-			result = value.MakeErrResult(value.ChannelClosedPushError.ToValue())
-		}
+	// reflect.Select reports recvOK = false for every send case: only a receive tells a closed channel
+	if chosenCase.Direction == reflect.SelectRecv && !channelOpen {
+		result := value.MakeErrResult(value.ChannelClosedPopError.ToValue())
 		vm.push(result.ToValue())
 		vm.push(value.SmallInt(chosenCaseIndex).ToValue())
 		return value.Undefined
